@@ -23,6 +23,9 @@ pub struct DistCase {
     /// which table's limits apply: 0 LL (35, log 9) 1 OF (31, log 8) 2 ML (52, log 9) 3 huffman weights (255, log 6)
     pub which: u8,
     pub shape: u8,
+    /// != 0: the description is written with zero runs cut into pieces (legal, non-canonical)
+    #[serde(default)]
+    pub split: u32,
 }
 
 fn limits(which: u8) -> (u8, u8) {
@@ -36,7 +39,7 @@ fn limits(which: u8) -> (u8, u8) {
 
 fn dist_strategy() -> impl Strategy<Value = DistCase> {
     let entry = (prop_oneof![4 => Just(0u8), 2 => 1u8..=3, 1 => 1u8..=12, 1 => 3u8..=40], prop_oneof![Just(1u16), 1u16..=8, 1u16..=500], prop::bool::weighted(0.2));
-    (5u8..=9, prop::collection::vec(entry, 1..=40), 0u8..=3, 0u8..=7).prop_map(|(log, support, which, shape)| DistCase { log, support, which, shape })
+    (5u8..=9, prop::collection::vec(entry, 1..=40), 0u8..=3, 0u8..=7, prop_oneof![2 => Just(0u32), 1 => 1u32..=u32::MAX]).prop_map(|(log, support, which, shape, split)| DistCase { log, support, which, shape, split })
 }
 
 /// build a valid NCount from the case (constructive: always valid)
@@ -87,8 +90,13 @@ fn compare_tables(t: &FSETable, want: &[fse::DEntry], what: &str) -> CaseResult 
 }
 
 fn check_dist_nc(nc: &NCount, which: u8, ctx: &mut CaseCtx) -> CaseResult {
+    check_dist_nc_with(nc, which, 0, ctx)
+}
+
+fn check_dist_nc_with(nc: &NCount, which: u8, split: u32, ctx: &mut CaseCtx) -> CaseResult {
     let (max_sym, max_log) = limits(which);
-    let bytes = fse::write_ncount(nc);
+    let bytes = fse::write_ncount_with(nc, split);
+    ctx.feat_if(split != 0 && bytes != fse::write_ncount(nc), "desc:zero_run_written_in_several_pieces");
     // the model reads its own description back (oracle self-check)
     match fse::read_ncount(&bytes, max_log, max_sym as usize) {
         Ok((back, used)) if &back == nc && used == bytes.len() => {}
@@ -149,7 +157,7 @@ fn check_dist_nc(nc: &NCount, which: u8, ctx: &mut CaseCtx) -> CaseResult {
 
 fn check_dist(c: &DistCase, ctx: &mut CaseCtx) -> CaseResult {
     let nc = build_ncount(c);
-    check_dist_nc(&nc, c.which, ctx)?;
+    check_dist_nc_with(&nc, c.which, c.split, ctx)?;
     let mut key = vec![nc.log];
     key.extend(nc.probs.iter().flat_map(|p| p.to_le_bytes()));
     ctx.set_hash_bytes(&[&key]);
@@ -468,7 +476,8 @@ pub fn run(eng: &Engine) {
     };
     eng.run_enumerated("small_distributions", &domain, items.len() as u64, 512, |i, c| {
         let nc = NCount { log: 5, probs: items[i as usize].clone() };
-        let r = check_dist_nc(&nc, 0, c);
+        // canonical serialisation, then one with the zero runs cut into pieces
+        let r = check_dist_nc(&nc, 0, c).and_then(|_| check_dist_nc_with(&nc, 0, i as u32 + 1, c));
         c.nontrivial = true;
         r
     });
